@@ -1,8 +1,14 @@
 package sim
 
 import (
+	"bytes"
 	"errors"
+	"fmt"
 	"math/rand/v2"
+	"runtime"
+	"sort"
+	"strconv"
+	"strings"
 	"sync"
 )
 
@@ -12,27 +18,43 @@ var ErrInjectedRand = errors.New("sim: injected random source failure")
 // Rand is a party's random source (io.Reader). The byte stream is a pure
 // function of its seed; the fault modes change how it is handed out, never
 // which bytes are consumed.
+//
+// Several protocols read their reader from worker goroutines they start
+// themselves (errgroup in the sigma AND/OR compositions, Paillier, ...). With
+// one sequential stream the assignment of bytes to workers would depend on the
+// Go scheduler (a worker pre-empted under machine load swaps two proofs'
+// randomness), which would make runs irreproducible. Rand therefore gives
+// every library-created goroutine its own sub-stream, labelled by the
+// goroutine's position in the creation tree (ordinal among the siblings of one
+// parent, in creation order), which does not depend on execution order.
 type Rand struct {
 	mu    sync.Mutex
-	src   *rand.ChaCha8
-	Calls int   // number of Read calls
-	Bytes int64 // bytes handed out
+	seed  Seed
+	src   *rand.ChaCha8            // stream of the root (caller) goroutine
+	subs  map[string]*rand.ChaCha8 // streams of library-created goroutines, by label
+	Calls int                      // number of Read calls
+	Bytes int64                    // bytes handed out
 	// ShortMax > 0: every Read returns at most 1..ShortMax bytes (legal io.Reader behaviour).
 	ShortMax int
 	shortRng *rand.Rand
 	// FailAt > 0: the FailAt-th Read call (1-based) and every later one returns ErrInjectedRand.
 	FailAt int
 	Failed bool
+	// SubStreams counts distinct worker goroutines that read.
+	SubStreams int
+	labels     map[uint64]string          // goid -> label ("" = root)
+	readers    map[uint64]map[uint64]bool // parent goid -> library-created children that read from this Rand
 }
 
 // NewRand returns a reader keyed by seed.
 func NewRand(seed Seed) *Rand {
-	return &Rand{src: rand.NewChaCha8(seed), shortRng: seed.Sub("short").Rand()}
+	return &Rand{seed: seed, src: rand.NewChaCha8(seed), shortRng: seed.Sub("short").Rand(), subs: map[string]*rand.ChaCha8{}}
 }
 
 func (r *Rand) Read(p []byte) (int, error) {
 	r.mu.Lock()
 	defer r.mu.Unlock()
+	label := r.goroutineLabel()
 	r.Calls++
 	if r.FailAt > 0 && r.Calls >= r.FailAt {
 		r.Failed = true
@@ -48,7 +70,154 @@ func (r *Rand) Read(p []byte) (int, error) {
 			n = k
 		}
 	}
-	_, _ = r.src.Read(p[:n])
+	src := r.src
+	if label != "" {
+		src = r.subs[label]
+		if src == nil {
+			src = rand.NewChaCha8(r.seed.Sub("worker:" + label))
+			r.subs[label] = src
+			r.SubStreams++
+		}
+	}
+	_, _ = src.Read(p[:n])
 	r.Bytes += int64(n)
 	return n, nil
 }
+
+// ---- goroutine labels ----
+//
+// A goroutine started by the harness (a party's task, the test itself) is the
+// root and reads the main stream. A goroutine started by library code is
+// labelled by its rank, in creation (= goroutine id) order, among the children
+// of the same parent that read from this Rand: the children that already read
+// plus the ones that are alive right now with a smaller id (worker pools start
+// all their workers before waiting, every worker of a pool runs the same code,
+// and pools of one parent follow each other in time). The rank therefore does
+// not depend on which worker the scheduler happens to run first. Goroutine ids
+// grow in creation order because every check process runs with one P.
+
+type gInfo struct {
+	id, parent uint64
+	libChild   bool   // created by library code (or errgroup on its behalf)
+	creator    string // function that started it
+}
+
+func curGoid() uint64 {
+	var buf [48]byte
+	n := runtime.Stack(buf[:], false)
+	b := bytes.TrimPrefix(buf[:n], []byte("goroutine "))
+	i := bytes.IndexByte(b, ' ')
+	if i < 0 {
+		return 0
+	}
+	id, _ := strconv.ParseUint(string(b[:i]), 10, 64)
+	return id
+}
+
+func isLibCreator(fn string) bool {
+	return strings.HasPrefix(fn, "github.com/bronlabs/bron-crypto/") || strings.HasPrefix(fn, "golang.org/x/sync/errgroup.")
+}
+
+// parseDump extracts (goid, creator goid, created-by-library) of every goroutine in a runtime.Stack dump.
+func parseDump(dump []byte) []gInfo {
+	var out []gInfo
+	for _, blk := range bytes.Split(dump, []byte("\n\n")) {
+		blk = bytes.TrimSpace(blk)
+		if !bytes.HasPrefix(blk, []byte("goroutine ")) {
+			continue
+		}
+		rest := blk[len("goroutine "):]
+		sp := bytes.IndexByte(rest, ' ')
+		if sp < 0 {
+			continue
+		}
+		id, err := strconv.ParseUint(string(rest[:sp]), 10, 64)
+		if err != nil {
+			continue
+		}
+		gi := gInfo{id: id}
+		if k := bytes.LastIndex(blk, []byte("\ncreated by ")); k >= 0 {
+			line := blk[k+len("\ncreated by "):]
+			if e := bytes.IndexByte(line, '\n'); e >= 0 {
+				line = line[:e]
+			}
+			if j := bytes.LastIndex(line, []byte(" in goroutine ")); j >= 0 {
+				gi.parent, _ = strconv.ParseUint(string(bytes.TrimSpace(line[j+len(" in goroutine "):])), 10, 64)
+				gi.creator = string(line[:j])
+				gi.libChild = isLibCreator(gi.creator)
+			}
+		}
+		out = append(out, gi)
+	}
+	return out
+}
+
+func stackDump(all bool) []byte {
+	buf := make([]byte, 1<<15)
+	for {
+		n := runtime.Stack(buf, all)
+		if n < len(buf) {
+			return buf[:n]
+		}
+		buf = make([]byte, 2*len(buf))
+	}
+}
+
+// goroutineLabel is called with r.mu held.
+func (r *Rand) goroutineLabel() string {
+	id := curGoid()
+	if l, ok := r.labels[id]; ok {
+		return l
+	}
+	if r.labels == nil {
+		r.labels = map[uint64]string{}
+		r.readers = map[uint64]map[uint64]bool{}
+	}
+	self := parseDump(stackDump(false))
+	if len(self) == 0 || !self[0].libChild {
+		r.labels[id] = ""
+		return ""
+	}
+	all := parseDump(stackDump(true))
+	info := map[uint64]gInfo{}
+	for _, g := range all {
+		info[g.id] = g
+	}
+	label := r.rankLabel(self[0], info, 0)
+	r.labels[id] = label
+	return label
+}
+
+func (r *Rand) rankLabel(g gInfo, info map[uint64]gInfo, depth int) string {
+	rank := 0
+	for rid := range r.readers[g.parent] {
+		if rid < g.id {
+			rank++
+		}
+	}
+	for _, o := range info {
+		// alive, created before me by the same pool primitive, has not read yet
+		// (a long-lived helper started by the same parent, such as the router's
+		// reader goroutine, is not a pool worker and must not shift the ranks)
+		if o.libChild && o.parent == g.parent && o.creator == g.creator && o.id < g.id && !r.readers[g.parent][o.id] {
+			rank++
+		}
+	}
+	if r.readers[g.parent] == nil {
+		r.readers[g.parent] = map[uint64]bool{}
+	}
+	r.readers[g.parent][g.id] = true
+	label := fmt.Sprint(rank)
+	if p, ok := info[g.parent]; ok && p.libChild && depth < 8 {
+		pl, known := r.labels[p.id]
+		if !known {
+			pl = r.rankLabel(p, info, depth+1)
+			r.labels[p.id] = pl
+		}
+		label = pl + "/" + label
+	}
+	return label
+}
+
+var _ = sort.Ints
+var _ sync.Mutex
